@@ -358,10 +358,12 @@ func (e *Engine) spellPairs() []spellPair {
 		for i := 1; i < len(sps); i++ {
 			a, b := sps[0], sps[i]
 			ctxs := map[string]func(string) string{
-				"field":    func(t string) string { return spellProg("", "", t+" x,\n") },
-				"repeat":   func(t string) string { return spellProg("", "", "repeat "+t+" xs,\n") },
-				"metadata": func(t string) string { return spellProg("", "MetaData M { "+t+" Code `d`, }\n", "Code c,\nrepeat Code cs,\n") },
-				"inline":   func(t string) string { return spellProg("", "", "In { "+t+" q, repeat "+t+" qs, },\n") },
+				"field":  func(t string) string { return spellProg("", "", t+" x,\n") },
+				"repeat": func(t string) string { return spellProg("", "", "repeat "+t+" xs,\n") },
+				"metadata": func(t string) string {
+					return spellProg("", "MetaData M { "+t+" Code `d`, }\n", "Code c,\nrepeat Code cs,\n")
+				},
+				"inline": func(t string) string { return spellProg("", "", "In { "+t+" q, repeat "+t+" qs, },\n") },
 			}
 			if unsigned[tok] {
 				ctxs["length"] = func(t string) string {
@@ -584,34 +586,34 @@ type faultCase struct {
 func faultCases() []faultCase {
 	var out []faultCase
 	base := []string{
-		"options {",                                // 1
-		"    LittleEndian = true;",                 // 2
-		"    StringPrefixLenType = u8;",            // 3
-		"}",                                        // 4
-		"MetaData Types {",                         // 5
-		"    u16 Code `a code`,",                   // 6
-		"    char[8] Name,",                        // 7
-		"}",                                        // 8
-		"root packet Msg {",                        // 9
-		"    u16 Len @lengthOf(Body),",             // 10
-		"    Code c,",                              // 11
-		"    Name n,",                              // 12
-		"    u8 Kind,",                             // 13
-		"    match Kind as Body {",                 // 14
-		"        1 : A,",                           // 15
-		"        [2, 3] : B,",                      // 16
-		"    },",                                   // 17
-		"    u32 Sum @calculatedFrom(\"crc\"),",    // 18
-		"}",                                        // 19
-		"packet A {",                               // 20
-		"    u8 a,",                                // 21
-		"    B inner,",                             // 22
-		"    In { u8 q, string t, },",              // 23
-		"}",                                        // 24
-		"packet B {",                               // 25
-		"    string s,",                            // 26
-		"    repeat u16 xs,",                       // 27
-		"}",                                        // 28
+		"options {",                             // 1
+		"    LittleEndian = true;",              // 2
+		"    StringPrefixLenType = u8;",         // 3
+		"}",                                     // 4
+		"MetaData Types {",                      // 5
+		"    u16 Code `a code`,",                // 6
+		"    char[8] Name,",                     // 7
+		"}",                                     // 8
+		"root packet Msg {",                     // 9
+		"    u16 Len @lengthOf(Body),",          // 10
+		"    Code c,",                           // 11
+		"    Name n,",                           // 12
+		"    u8 Kind,",                          // 13
+		"    match Kind as Body {",              // 14
+		"        1 : A,",                        // 15
+		"        [2, 3] : B,",                   // 16
+		"    },",                                // 17
+		"    u32 Sum @calculatedFrom(\"crc\"),", // 18
+		"}",                                     // 19
+		"packet A {",                            // 20
+		"    u8 a,",                             // 21
+		"    B inner,",                          // 22
+		"    In { u8 q, string t, },",           // 23
+		"}",                                     // 24
+		"packet B {",                            // 25
+		"    string s,",                         // 26
+		"    repeat u16 xs,",                    // 27
+		"}",                                     // 28
 	}
 	join := func(ls []string) string { return strings.Join(ls, "\n") + "\n" }
 	out = append(out, faultCase{"well-formed base", join(base), 0})
